@@ -45,7 +45,7 @@ import (
 )
 
 func init() {
-	fw.Register(&fw.Check{ID: "C38", Level: "exploration", Run: runC38, QuickBudget: 100, ThoroughBudget: 1400})
+	fw.Register(&fw.Check{ID: "C38", Level: "exploration", Run: runC38, QuickBudget: 150, ThoroughBudget: 1400})
 }
 
 type i38Base struct {
@@ -621,9 +621,37 @@ func i38Key(k i38Case, st i38State, o i38Opt, pairing string, b i38Bad) string {
 	return fmt.Sprintf("%s %s spec=%s opt=%s", b.Kind, pairing, i38Specs[k.spec].Name, o.Name)
 }
 
+// i38QuickKeep selects the quick tier's sub-space (still enumerated completely): the single commit,
+// the 2-chain and the 3-fork (every relation fast-forward / diverged / new / equal / delete occurs),
+// the main branch name for every kept refspec x option, the other names only on the 2-chain.
+func i38QuickKeep(d fw.DAG, l, r, name int, spec, opt string) bool {
+	n := len(d.Parents)
+	if n == 3 && !((l == 1 && r == 2) || (l == 2 && r == 1)) {
+		return false // the fork adds only the diverged relation
+	}
+	shape := n == 1 || (n == 2 && len(d.Parents[1]) == 1) ||
+		(n == 3 && len(d.Parents[1]) == 1 && d.Parents[1][0] == 0 && len(d.Parents[2]) == 1 && d.Parents[2][0] == 0)
+	if !shape {
+		return false
+	}
+	if name != 0 && (n != 2 || spec != "plain") {
+		return false
+	}
+	switch spec {
+	case "plain", "forced", "delete", "+wildcard":
+	default:
+		return n <= 2 && opt == "none"
+	}
+	switch opt {
+	case "none", "force", "lease-track-fresh", "lease-track-stale", "lease-explicit-stale", "lease-other-ref", "prune", "force+prune":
+		return true
+	}
+	return n <= 2 && spec == "plain"
+}
+
 func runC38(c *fw.Ctx) {
 	maxCommits := c.Pick(3, 4)
-	maxCommitsX := c.Pick(2, 3) // bound for every run that involves a git process on one side
+	maxCommitsX := c.Pick(1, 3) // bound for every run that involves a git process on one side
 	only := os.Getenv("C38_ONLY")
 	c.Bound("max_commits", maxCommits)
 	c.Bound("max_commits_pairings_with_git_and_model_conformance", maxCommitsX)
@@ -638,7 +666,7 @@ func runC38(c *fw.Ctx) {
 	c.Bound("refspecs", sn)
 	c.Bound("options", on)
 	c.Bound("pairings", []string{i36GG, i36GX, i36XG})
-	c.SetRule("every DAG with <= max_commits commits x every (local, remote) value of the subject branch x branch name x refspec kind x option set (names other than `a` only with the lease options and none); each case is pushed go-git->go-git and, up to the smaller bound, go-git->git receive-pack, git->go-git receive-pack and git->git (conformance of the rule table); remote fsck + rule table; non-trivial = the request contains at least one candidate update; a class is (pairing, refspec, option, outcome, multiset of (relation, allowed, applied))")
+	c.SetRule("(quick tier: the sub-space selected by i38QuickKeep - single commit, 2-chain, 3-fork; 4 refspec kinds x 8 options on the main branch name, the rest on the 2-chain only - enumerated completely) every DAG with <= max_commits commits x every (local, remote) value of the subject branch x branch name x refspec kind x option set (names other than `a` only with the lease options and none); each case is pushed go-git->go-git and, up to the smaller bound, go-git->git receive-pack, git->go-git receive-pack and git->git (conformance of the rule table); remote fsck + rule table; non-trivial = the request contains at least one candidate update; a class is (pairing, refspec, option, outcome, multiset of (relation, allowed, applied))")
 	c.Assume("git 2.39.5 push/receive-pack/fsck are the reference; follow-tags is judged by each client's documented rule (git: tags reachable from anything the remote will have; go-git: from the refs being pushed); an unsuccessful push is only required to apply nothing forbidden and nothing outside the request")
 
 	r := &i38Run{c: c, home: filepath.Join(c.Scratch(), "home"), self: iSelf(), failed: map[string]int{}, msgs: map[string]string{}}
@@ -683,6 +711,9 @@ func runC38(c *fw.Ctx) {
 					for sp := range i38Specs {
 						for op, o := range i38Opts {
 							if name != 0 && !(o.Lease != "" || o.Name == "none") {
+								continue
+							}
+							if !c.Thorough() && !i38QuickKeep(d, l, rr, name, i38Specs[sp].Name, o.Name) {
 								continue
 							}
 							cases = append(cases, protoCase{bi, l, rr, name, sp, op})
